@@ -22,8 +22,8 @@ ASSUMPTIONS = [
     "RouterOS: a block is a section (its row is one path word), leaves live under sections (a leaf outside every section does not exist in RouterOS exports and is outside the domain)",
 ]
 EXHAUSTIVE = {"quick": True, "thorough": True}
-FLOORS = {"quick": {"roundtrips": 20000, "vendors": 14, "fixpoints": 20000, "custom_indent_roundtrips": 5000, "device_texts": 1500, "annotations_written": 1500, "nokia_nested_configure_rows": 150, "iosxr_block_end_lookalike_rows": 300},
-          "thorough": {"roundtrips": 400000, "vendors": 14, "fixpoints": 400000, "custom_indent_roundtrips": 80000, "device_texts": 25000, "annotations_written": 25000, "nokia_nested_configure_rows": 2500, "iosxr_block_end_lookalike_rows": 5000}}
+FLOORS = {"quick": {"roundtrips": 20000, "vendors": 14, "fixpoints": 20000, "custom_indent_roundtrips": 5000, "device_texts": 1500, "annotations_written": 1500, "nokia_nested_configure_rows": 150, "iosxr_block_end_lookalike_rows": 300, "cli_vocabulary_trees": 4000},
+          "thorough": {"roundtrips": 400000, "vendors": 14, "fixpoints": 400000, "custom_indent_roundtrips": 80000, "device_texts": 25000, "annotations_written": 25000, "nokia_nested_configure_rows": 2500, "iosxr_block_end_lookalike_rows": 5000, "cli_vocabulary_trees": 60000}}
 WORDS = ["a", "b1", "Eth-Trunk1", "10.0.0.1/24", "x.y", "k=v", "q_1", "peer", "description", "1", "ge-0/0/1", "descr:foo", "100:1"]
 BRACE = {"juniper", "ribbon", "nokia"}
 KNOWN = {
@@ -106,6 +106,25 @@ def ros_tree(rng, nested, toplevel_leaf):
             t.append([s, leaves()])
     if toplevel_leaf:
         t.insert(rng.randrange(len(t) + 1), ["set top=%s" % rng.choice(WORDS), []])
+    return t
+
+
+VOCAB = ["address-family ipv4 unicast", "address-family ipv6", "address-family l2vpn evpn", "template peer-policy PP", "template peer-session PS", "route-policy RP",
+         "prefix-set PS1", "as-path-set A1", "community-set C1", "policy-map PM", "class-map match-any CM", "vrf definition V", "xpl route-filter RF",
+         "interface GigabitEthernet0/1", "router bgp 65000", "neighbor 1.1.1.1", "route-map RM permit 10", "ip access-list extended ACL", "control-plane",
+         "line vty 0 4", "bgp 65000", "ipv4-family unicast", "ospf 1", "area 0.0.0.0", "aaa", "user-interface vty 0 4", "vlan batch 10 20", "policy-options",
+         "protocols", "group G1", "class C1", "if destination in PS1 then", "else", "apply RP2"]
+
+
+def vocab_tree(rng, vname, d=0, maxd=4):
+    """trees over block headers and lines of the vendors' real CLIs (every vendor reads every row as plain text, unless its syntax says otherwise)"""
+    t, seen = [], set()
+    for _ in range(rng.randint(1, 4)):
+        row = rng.choice(VOCAB) if rng.random() < 0.7 else " ".join(rng.choice(WORDS) for _ in range(rng.randint(1, 3)))
+        if row in seen or (vname == "cisco" and row.startswith("address-family")):  # (cisco + address-family: the listed finding, class cisco-address-family)
+            continue
+        seen.add(row)
+        t.append([row, vocab_tree(rng, vname, d + 1, maxd) if d < maxd - 1 and rng.random() < 0.5 else []])
     return t
 
 
@@ -273,6 +292,11 @@ def run_vendor(spec, acc):
             roundtrip(vname, t, "plain", acc, indent=INDENTS[(j // 4) % len(INDENTS)])
         if j < 1:
             acc.sample({"vendor": vname, "tree": t})
+    for j in range(400 if tier == "quick" else 6000):
+        t = vocab_tree(rng, vname)
+        if t and in_domain(vname, t):
+            acc.count("cli_vocabulary_trees")
+            roundtrip(vname, t, "vocabulary", acc)
     if vname in BRACE:
         for j in range(600 if tier == "quick" else 10000):
             t = random_tree(rng, maxd=4)
